@@ -62,4 +62,53 @@ def import_hvsrpy():
         raise RuntimeError(f"hvsrpy imported from {got}, expected {want}")
     import logging
     logging.getLogger("hvsrpy").setLevel(logging.CRITICAL)
+    poison_uninitialised_memory()
     return hvsrpy
+
+
+class _PoisonNp:
+    """Stands in for the ``np`` global of the (non-numba) hvsrpy modules: everything passes through, except that
+    ``empty``/``empty_like`` hand out *poisoned* instead of uninitialised memory (NaN for floats, the most negative
+    value for integers).  Uninitialised memory is a source of nondeterminism like any other: a row that the code
+    forgets to write would otherwise hold whatever the allocator left there - often the correct values of the
+    reference computed a moment earlier - and a violation found that way would not replay."""
+
+    def __init__(self, real):
+        object.__setattr__(self, "_np", real)
+
+    def __getattr__(self, name):
+        return getattr(self._np, name)
+
+    def _poison(self, a):
+        k = a.dtype.kind
+        if k in "fc":
+            a.fill(self._np.nan)
+        elif k == "i":
+            a.fill(self._np.iinfo(a.dtype).min)
+        elif k == "u":
+            a.fill(self._np.iinfo(a.dtype).max)
+        elif k == "b":
+            a.fill(True)
+        elif k != "O":
+            a[...] = self._np.zeros((), dtype=a.dtype)
+        return a
+
+    def empty(self, *args, **kwargs):
+        return self._poison(self._np.empty(*args, **kwargs))
+
+    def empty_like(self, *args, **kwargs):
+        return self._poison(self._np.empty_like(*args, **kwargs))
+
+
+def poison_uninitialised_memory():
+    import importlib
+    import numpy
+    for name in ("processing", "hvsr_traditional", "hvsr_azimuthal", "hvsr_curve", "hvsr_diffuse_field", "object_io",
+                 "data_wrangler", "statistics", "window_rejection", "timeseries", "seismic_recording_3c"):
+        try:
+            m = importlib.import_module("hvsrpy." + name)
+        except Exception:                                    # noqa
+            continue
+        cur = m.__dict__.get("np")
+        if cur is numpy:
+            m.np = _PoisonNp(numpy)
